@@ -403,11 +403,20 @@ PROPS = {
                      DS + "AbstractDissimilarity._build_arrays_alignment",
                      SP + "ShuffleContinuumSampler.sample_from_continuum", SP + "StatisticalContinuumSampler.sample_from_continuum",
                      CS + "CorpusShufflingTool.corpus_from_reference#names", CS + "CorpusShufflingTool.corpus_from_reference#count",
-                     CS + "CorpusShufflingTool.false_neg_shuffle", CS + "CorpusShufflingTool.__init__"],
+                     CS + "CorpusShufflingTool.false_neg_shuffle", CS + "CorpusShufflingTool.__init__",
+                     # sampler initialisation (modifies the sampler only: the reference continuum's frame is discharged), recomputed disorders
+                     SP + "AbstractContinuumSampler.init_sampling#given", SP + "AbstractContinuumSampler.init_sampling#default",
+                     SP + "ShuffleContinuumSampler.init_sampling#given", SP + "ShuffleContinuumSampler.init_sampling#default",
+                     SP + "StatisticalContinuumSampler.init_sampling#given", SP + "StatisticalContinuumSampler.init_sampling#default",
+                     SP + "StatisticalContinuumSampler.init_sampling_custom",
+                     SP + "StatisticalContinuumSampler._set_gap_information", SP + "StatisticalContinuumSampler._set_duration_information",
+                     SP + "StatisticalContinuumSampler._set_categories_information", SP + "StatisticalContinuumSampler._set_nb_units_information",
+                     DS + "AbstractDissimilarity.compute_disorder", AL + "Alignment.compute_disorder", AL + "SoftAlignment.compute_disorder",
+                     AL + "Alignment.disorder#lazy", CT + "Continuum.__getitem__#index"],
         effects="C14", effects_oracle=CT + "Continuum.compute_gamma#purity",
         oracles=[CT + "Continuum.compute_gamma#purity"],
         bounded=[dict(oracle=CT + "Continuum.compute_gamma#purity",
-                      what="entry points without a heap contract (first window, compute_gamma, gamma_cat/k, sampler initialisation, four corpus "
+                      what="entry points without a heap contract (first window, compute_gamma, gamma_cat/k, two corpus "
                            "shuffles, file readers) and, redundantly, those with one: inputs snapshotted before / after, derived continua mutated "
                            "afterwards")],
         design_ref="DESIGN.md section 4 C14, 1.5 (frames), 1.6",
